@@ -144,13 +144,15 @@ theorem consistent_zero (G : Graph α) (hw : NonnegW G) (t : Nat) : Consistent G
 /-! ### the heuristic of `route.go` (after the fix) is consistent -/
 
 /-- what the heuristic needs from the geometry and the network: `op.Distance` obeys the triangle
-inequality, a link is at least as long as the distance between its end NODES (true when end points
-and node positions coincide exactly, see `polyLen_ge_chord`; within 1e-9 relative otherwise),
+inequality; the SCALED distance between the end NODES of a link is at most the link's length (the
+invariant `AddLink` maintains by lowering `heuristicScale`, see `build_wf` — without the scale this
+fails when an end vertex is only near its node, `C19_gap_not_minimal`); the scale is non-negative;
 and every link's speed is positive and at most the tracked MAXIMUM speed. -/
 structure GeoOk (geo : Geo α) (net : Net α) : Prop where
   tri : ∀ p q r, geo.euclid p r ≤ geo.euclid p q + geo.euclid q r
   chord : ∀ e ∈ net.edges, ∀ pa pb, nodePos net e.a = some pa → nodePos net e.b = some pb →
-    geo.euclid pa pb ≤ e.length ∧ geo.euclid pb pa ≤ e.length
+    net.hscale * geo.euclid pa pb ≤ e.length ∧ net.hscale * geo.euclid pb pa ≤ e.length
+  scale0 : 0 ≤ net.hscale
   speed : ∀ e ∈ net.edges, 0 < e.speed ∧ e.speed ≤ net.maxSpeed ∧ e.time = e.length / e.speed
 
 theorem nodePos_of_hasNode (net : Net α) (i : Nat) (h : hasNode net i = true) : ∃ p, nodePos net i = some p := by
@@ -190,20 +192,23 @@ theorem heuristic_consistent (geo : Geo α) (net : Net α) (ord : Nat → List N
   cases hpt : nodePos net t with
   | none => simpa using hc0
   | some pt =>
-    have hch : geo.euclid px py ≤ e.length := by
+    have hch : net.hscale * geo.euclid px py ≤ e.length := by
       rcases hj with h | h
       · exact (hg.chord e hm px py (by rw [h.1]; exact hpx) (by rw [h.2]; exact hpy)).1
       · exact (hg.chord e hm py px (by rw [h.1]; exact hpy) (by rw [h.2]; exact hpx)).2
-    have htri := hg.tri px py pt
+    have htri : net.hscale * geo.euclid px pt ≤ net.hscale * (geo.euclid px py + geo.euclid py pt) :=
+      mul_le_mul_of_nonneg_left (hg.tri px py pt) hg.scale0
+    rw [mul_add] at htri
     obtain ⟨hs0, hsM, hte⟩ := hg.speed e hm
     have hM : 0 < net.maxSpeed := lt_of_lt_of_le hs0 hsM
     simp only []
+    rw [mul_comm (geo.euclid px pt), mul_comm (geo.euclid py pt)]
     cases ho : net.opt with
     | distance => simp only [ecost, ho]; linarith
     | time =>
       simp only [ecost, ho]
       rw [hte]
-      have h1 : geo.euclid px pt / net.maxSpeed ≤ (e.length + geo.euclid py pt) / net.maxSpeed :=
+      have h1 : net.hscale * geo.euclid px pt / net.maxSpeed ≤ (e.length + net.hscale * geo.euclid py pt) / net.maxSpeed :=
         div_le_div_of_nonneg_right (by linarith) (le_of_lt hM)
       have h2 : e.length / net.maxSpeed ≤ e.length / e.speed :=
         div_le_div_of_nonneg_left hl0 hs0 hsM
@@ -305,31 +310,36 @@ theorem C19_unreachable (geo : Geo α) (pick : Pick α) (ord : Nat → List Nat 
 
 /-! ### all histories -/
 
-theorem binv_new (o : Opt) : BInv (newNetwork o : Net α) := by
-  refine ⟨rfl, ?_, ?_, ?_, ?_, ?_⟩ <;> intro x hx <;> simp [newNetwork] at hx
+theorem binv_new (geo : Geo α) (o : Opt) : BInv geo (newNetwork o : Net α) := by
+  refine ⟨rfl, ?_, ?_, ?_, ?_, ?_, by simp [newNetwork], by simp [newNetwork], ?_⟩ <;> intro x hx <;> simp [newNetwork] at hx
 
 /-- **Every sequence of AddLink calls gives a well-formed network** (no bound on the history):
-node ids are `1 … |nodes|`, every stored link joins two distinct stored nodes, lengths and times are
-non-negative, `time = length / speed`, and every speed is positive and at most the tracked maximum
-speed (what `heuristic_consistent` needs).  Hypotheses: the R-tree returns a stored node, `op.Length`
-is non-negative, speeds are positive (the property's quantifier). -/
+node ids are `1 … |nodes|` and unique, every stored link joins two distinct stored nodes, lengths and
+times are non-negative, `time = length / speed`, every speed is positive and at most the tracked maximum
+speed, `0 ≤ heuristicScale ≤ 1`, and for EVERY stored link `heuristicScale ×` (distance between the
+positions of its two end nodes) `≤` its length — whatever vertices were identified with those nodes
+(what `heuristic_consistent` needs).  Hypotheses: the R-tree returns a stored node, `op.Length` and
+`op.Distance` are non-negative, speeds are positive (the property's quantifier). -/
 theorem build_wf (geo : Geo α) (hc : GeoContract geo) (o : Opt) (ls : List (Link α)) (net : Net α)
     (hsp : ∀ l ∈ ls, 0 < l.speed) (h : build geo o ls = .ok net) :
-    WF net ∧ ∀ e ∈ net.edges, 0 < e.speed ∧ e.speed ≤ net.maxSpeed ∧ e.time = e.length / e.speed := by
-  have := buildFrom_inv geo hc ls (newNetwork o) net 0 (binv_new o) hsp h
-  exact ⟨this.wf, this.speed⟩
+    WF net ∧ (∀ e ∈ net.edges, 0 < e.speed ∧ e.speed ≤ net.maxSpeed ∧ e.time = e.length / e.speed) ∧
+    (net.nodes.map (·.id)).Nodup ∧ (0 ≤ net.hscale ∧ net.hscale ≤ 1) ∧
+    ∀ e ∈ net.edges, ∀ pa pb, nodePos net e.a = some pa → nodePos net e.b = some pb →
+      net.hscale * geo.euclid pa pb ≤ e.length := by
+  have := buildFrom_inv geo hc ls (newNetwork o) net 0 (binv_new geo o) hsp h
+  exact ⟨this.wf, this.speed, this.nodup, this.scale, this.chord⟩
 
 /-- **C19 for networks built by any AddLink history** — `build_wf`, `heuristic_consistent` and
 `C19_route` composed: the only remaining hypotheses are the contracts of the geometric primitives
-(`GeoContract`, triangle inequality, link length ≥ distance between its end nodes), the heap contract,
-the quantifier of the property (positive speeds, no parallel links; self-loops make `build` fault),
-and that the two nearest nodes are connected. -/
+(`GeoContract`: the R-tree returns a stored node, lengths and distances are non-negative, `op.Distance`
+is symmetric; and its triangle inequality), the heap contract, the quantifier of the property (positive
+speeds, no parallel links; self-loops make `build` fault), and that the two nearest nodes are connected.
+NO hypothesis relates link lengths to node positions any more: since fix 3 the code scales its heuristic
+so that it is consistent also when link end vertices are only near their nodes. -/
 theorem C19_built (geo : Geo α) (pick : Pick α) (ord : Nat → List Nat → List Nat) (o : Opt)
     (ls : List (Link α)) (net : Net α) (from_ to_ : Pt α) (s t : MNode α)
     (hb : build geo o ls = .ok net) (hsp : ∀ l ∈ ls, 0 < l.speed) (hc : GeoContract geo)
     (htri : ∀ p q r, geo.euclid p r ≤ geo.euclid p q + geo.euclid q r)
-    (hchord : ∀ e ∈ net.edges, ∀ pa pb, nodePos net e.a = some pa → nodePos net e.b = some pb →
-      geo.euclid pa pb ≤ e.length ∧ geo.euclid pb pa ≤ e.length)
     (hP : PickSpec pick) (hord : ∀ u l x, x ∈ ord u l ↔ x ∈ l) (hnp : NoParallel net)
     (hs : geo.nearest net.nodes from_ = some s) (ht : geo.nearest net.nodes to_ = some t)
     (hconn : ∃ es0, (∀ e ∈ es0, e ∈ net.edges) ∧ EChain s.id es0 t.id) :
@@ -340,9 +350,14 @@ theorem C19_built (geo : Geo α) (pick : Pick α) (ord : Nat → List Nat → Li
       r.distance = esum (·.length) es ∧ r.time = esum (·.time) es ∧
       ∀ es', (∀ e ∈ es', e ∈ net.edges) → EChain s.id es' t.id →
         esum (ecost net.opt) es ≤ esum (ecost net.opt) es' := by
-  obtain ⟨hwf, hspeed⟩ := build_wf geo hc o ls net hsp hb
+  obtain ⟨hwf, hspeed, _, hscale, hchord⟩ := build_wf geo hc o ls net hsp hb
+  have hch : ∀ e ∈ net.edges, ∀ pa pb, nodePos net e.a = some pa → nodePos net e.b = some pb →
+      net.hscale * geo.euclid pa pb ≤ e.length ∧ net.hscale * geo.euclid pb pa ≤ e.length := by
+    intro e he pa pb ha hb'
+    have := hchord e he pa pb ha hb'
+    exact ⟨this, by rw [hc.euclidSymm pb pa]; exact this⟩
   exact C19_route geo pick ord net from_ to_ s t hP hord hwf hnp hc.nearestMem hs ht
-    (heuristic_consistent geo net ord hord hwf ⟨htri, hchord, hspeed⟩ t.id) hconn
+    (heuristic_consistent geo net ord hord hwf ⟨htri, hch, hscale.1, hspeed⟩ t.id) hconn
 
 /-- **Answers do not depend on the query history.**  In any history of `AddLink` and `ShortestRoute`
 calls on one network (`runOps`), the answer to a query is `shortestRoute` on the network built from
@@ -383,7 +398,7 @@ theorem C19_history (geo : Geo α) (pick : Pick α) (iw : Bool) (ord : Nat → L
         obtain ⟨net', h1, h2⟩ := ih net i rs' hr
         exact ⟨net', by simpa [linksOf] using h1, by simpa [queriesIn] using h2⟩
 
-/-! ### the chord hypothesis cannot be dropped (known finding "identification gaps") -/
+/-! ### why the heuristic is scaled (finding "identification gaps", fixed by fix 3) -/
 
 def absQ (a : ℚ) : ℚ := if a < 0 then -a else a
 /-- Manhattan geometry, exact-position lookup -/
@@ -402,18 +417,19 @@ def netW : Net ℚ :=
     nodes := [⟨1, ⟨0, 0⟩⟩, ⟨2, ⟨10, 0⟩⟩, ⟨3, ⟨20, 0⟩⟩]
     edges := [⟨0, 1, 2, 10, 1, 10⟩, ⟨1, 2, 3, 8, 1, 8⟩, ⟨2, 1, 3, 19, 1, 19⟩]
     maxID := 3
-    maxSpeed := 1 }
+    maxSpeed := 1
+    hscale := 1 }
 
 def routeDist (r : Except Fault (Route ℚ)) : ℚ := match r with | .ok r => r.distance | .error _ => 0
 
 
-/-- **Negation witness for the unconditional statement.**  `C19_route` assumes (through `Consistent`,
-i.e. `GeoOk.chord`) that every link is at least as long as the distance between its END NODES.
-When a link's end vertex is merely near its node (inside `op.PointEquals`' tolerance) that fails by
-the size of the gap, the heuristic overestimates, and the modelled A* — like the real code on the
-corpus case `gap` — returns the direct link of length 19 although the chain over node 2 costs 18;
-all other hypotheses of `C19_route` hold.  `C19_route`/`C19_built` are therefore the strongest
-true statements of their shape (partial: exact minimality needs `hchord`). -/
+/-- **The unscaled heuristic (`heuristicScale = 1`, the code before fix 3) is not enough.**  With
+`hscale = 1` `GeoOk.chord` says that every link is at least as long as the distance between its END
+NODES.  When a link's end vertex is merely near its node (inside `op.PointEquals`' tolerance) that
+fails by the size of the gap, the heuristic overestimates, and the modelled A* — like the real code
+before the fix on the corpus case `gap` — returns the direct link of length 19 although the chain
+over node 2 costs 18; all other hypotheses of `C19_route` hold.  `C19_gap_fixed` below is the same
+network built by the fixed `AddLink`. -/
 theorem C19_gap_not_minimal :
     routeDist (shortestRoute geoW pickMin true (fun _ l => l) netW ⟨0, 0⟩ ⟨20, 0⟩) = 19 ∧
     EChain 1 [(⟨0, 1, 2, 10, 1, 10⟩ : MEdge ℚ), ⟨1, 2, 3, 8, 1, 8⟩] 3 ∧
@@ -429,6 +445,34 @@ theorem C19_gap_not_minimal :
   · intro e he e' he' u v h1 h2
     simp [netW] at he he'
     rcases he with rfl | rfl | rfl <;> rcases he' with rfl | rfl | rfl <;> simp [Joins] at h1 h2 ⊢ <;> omega
+
+/-- Manhattan geometry; an end point is identified with the NEAREST node when at most 2 away on the same
+horizontal line (a stand-in for `op.PointEquals`' tolerance) -/
+def geoN : Geo ℚ :=
+  { nearest := fun l p => match l with
+      | [] => none
+      | n :: ns => some (ns.foldl (fun m x =>
+          if absQ (x.p.x - p.x) + absQ (x.p.y - p.y) < absQ (m.p.x - p.x) + absQ (m.p.y - p.y) then x else m) n)
+    ptEq := fun p q => decide (absQ (p.x - q.x) ≤ 2 ∧ p.y = q.y)
+    length := fun pts => match pts with
+      | [p, q] => absQ (p.x - q.x) + absQ (p.y - q.y)
+      | _ => 0
+    euclid := fun p q => absQ (p.x - q.x) + absQ (p.y - q.y)
+    one := 1 }
+
+def gapLinks : List (Link ℚ) :=
+  [⟨[⟨0, 0⟩, ⟨10, 0⟩], 1⟩, ⟨[⟨12, 0⟩, ⟨20, 0⟩], 1⟩, ⟨[⟨1, 0⟩, ⟨20, 0⟩], 1⟩]
+
+def builtDist (r : Except Fault (Net ℚ)) : ℚ × ℚ × Nat :=
+  match r with
+  | .ok net => (routeDist (shortestRoute geoN pickMin true (fun _ l => l) net ⟨0, 0⟩ ⟨20, 0⟩), net.hscale, net.nodes.length)
+  | .error _ => (0, 0, 0)
+
+/-- **The witness network built by the fixed `AddLink`**: links (0,0)–(10,0), (12,0)–(20,0) (its first
+vertex is identified with the node at (10,0): length 8, node distance 10) and (1,0)–(20,0) (identified
+with the node at (0,0): length 19, node distance 20) give three nodes and `heuristicScale = 8/10`; the
+route from (0,0) to (20,0) now is the chain over the middle node, 18 — the minimum. -/
+theorem C19_gap_fixed : builtDist (build geoN .distance gapLinks) = (18, 4/5, 3) := by decide +kernel
 
 /-! ### non-vacuity: the hypotheses are satisfiable together (a two-link network over ℚ) -/
 
@@ -448,7 +492,8 @@ def netQ : Net ℚ :=
     nodes := [⟨1, ⟨0, 0⟩⟩, ⟨2, ⟨4, 0⟩⟩, ⟨3, ⟨4, 3⟩⟩]
     edges := [⟨0, 1, 2, 4, 1, 4⟩, ⟨1, 2, 3, 3, 1, 3⟩]
     maxID := 3
-    maxSpeed := 1 }
+    maxSpeed := 1
+    hscale := 1 }
 
 theorem wfQ : WF netQ := by
   refine ⟨?_, ?_, ?_, ?_⟩
@@ -463,14 +508,14 @@ theorem npQ : NoParallel netQ := by
   rcases he with rfl | rfl <;> rcases he' with rfl | rfl <;> simp [Joins] at h1 h2 ⊢ <;> omega
 
 theorem geoOkQ : GeoOk geoQ netQ := by
-  refine ⟨?_, ?_, ?_⟩
+  refine ⟨?_, ?_, by norm_num [netQ], ?_⟩
   · intro p q r
     have h1 := abs_sub_le p.x q.x r.x
     have h2 := abs_sub_le p.y q.y r.y
     simp only [geoQ]; linarith
   · intro e he pa pb ha hb
     simp [netQ] at he
-    rcases he with rfl | rfl <;> simp [nodePos, netQ] at ha hb <;> subst ha <;> subst hb <;> norm_num [geoQ]
+    rcases he with rfl | rfl <;> simp [nodePos, netQ] at ha hb <;> subst ha <;> subst hb <;> norm_num [geoQ, netQ]
   · intro e he; simp [netQ] at he; rcases he with rfl | rfl <;> norm_num [netQ]
 
 /-- the hypotheses of `C19_route` are jointly satisfiable (query from (0,0) to (4,3): nodes 1 and 3) -/
